@@ -39,10 +39,16 @@ def run(pid, tier):
     c03 = pid == 'C03'
 
     # ---- Verus
-    if v['inconclusive']:
-        out.inconclusive.append('verus: ' + v['inconclusive'])
-    if sv['inconclusive']:
-        out.inconclusive.append('verus (set unit): ' + sv['inconclusive'])
+    companions_clean = (not k['inconclusive'] and not k['failures'] and not n['failures']
+                        and all(k['results'].get(h, {}).get('status') == 'SUCCESSFUL' for h in k['harnesses']))
+    for unit_name, uu in (('main lattice unit', v), ('set unit', sv)):
+        if uu['inconclusive']:
+            msg = 'verus could not process the %s (%s)' % (unit_name, uu['inconclusive'].strip().split('\n')[0][:300])
+            if companions_clean:
+                out.proof_lost.append(msg + ': the generic proofs of this unit are unavailable on this tree; every Kani harness (complete for its '
+                                      'instantiation) and every native exhaustive run passed')
+            else:
+                out.inconclusive.append(msg + '\n' + uu['inconclusive'])
     vfails = [f for f in v['failures'] + sv['failures'] if (not c03 or c03_relevant_verus(f))]
     for f in vfails:
         cex = unit_lattice.find_cex_for_verus_failure(f, unit)
@@ -52,8 +58,8 @@ def run(pid, tier):
                                                                'failed_on_real_code': cex['replay_failed']},
                           replay_transcript=cex['replay_stdout'])
         elif unit_lattice.companions_all_passed(f, unit):
-            out.inconclusive.append('verus could not prove %s, but every companion Kani harness of this impl (%s) verified on the full domain of its '
-                                    'instantiation and no failing input exists in the enumerated domains: the generic PROOF is lost (e.g. a refactor outside the '
+            out.proof_lost.append('verus could not prove %s, but every companion harness of this impl (%s) passed (Kani: full domain of its '
+                                    'instantiation; native: the enumerated universe) and no failing input exists: the generic PROOF is lost (e.g. a refactor outside the '
                                     'solver\'s automation), no violation is demonstrated.\n%s' % (f['obligation'], ', '.join(unit_lattice.companions(f)), f['verifier_output'][:1500]))
         else:
             out.violation(f['obligation'], 'verus', f['verifier_output'])
@@ -164,8 +170,8 @@ def run(pid, tier):
         'bounded_standins_not_counted_as_proved': {h: {'evaluated': r['evaluated'], 'domain': r['domain'], 'failures': len(r['failures'])}
                                                    for h, r in bounded.items()},
         'functions_under_contract': sorted(set('%s::%s %s :: %s' % (f['crate'], f['mod'], f['container'], f['fn']) for f in log.real_fns + sv['log'].real_fns)),
-        'lattice_unit_assumption_scan': scan_assumptions(open(v['path']).read()),
-        'set_unit_assumption_scan': scan_assumptions(open(sv['path']).read()),
+        'lattice_unit_assumption_scan': (scan_assumptions(open(v['path']).read()) if v['path'] else []),
+        'set_unit_assumption_scan': (scan_assumptions(open(sv['path']).read()) if sv['path'] else []),
         'functions_assumed_in_verus_proved_by_kani': log.external,
         'rewrites_applied': summarize_rewrites(log.rewrites + sv['log'].rewrites),
         'samples': [
@@ -184,7 +190,7 @@ def run(pid, tier):
         'termination of the lattice operations is checked by Verus only for the functions it verifies',
     ]
     if tier == 'thorough' and not out.violations:
-        out.coverage['proof_stability_under_smt_seeds'] = {os.path.basename(u['path']): common.stability_sweep(u['path']) for u in (v, sv)}
+        out.coverage['proof_stability_under_smt_seeds'] = {os.path.basename(u['path']): common.stability_sweep(u['path']) for u in (v, sv) if u['path']}
     if c03 and lat_idx_cov:
         out.coverage['lattice_index_idempotent_reinsertion'] = lat_idx_cov
     if c03:
